@@ -321,18 +321,21 @@ func (c *compiler) compileType(y *Type, parent Leafable, isUnion bool) error {
 
 	if y.format == val.FmtEnum || y.format == val.FmtEnumList {
 		y.enum = make(val.EnumList, len(y.enums))
+		// RFC 7950 9.6.4.2: an explicit value (0 included) is kept, otherwise the
+		// value is one greater than the highest value so far, 0 for the first
 		nextId := 0
 		for i, item := range y.enums {
-			if item.val > 0 {
-				nextId = item.val
-			} else {
+			if !item.valSet {
 				item.val = nextId
+				item.valSet = true
 			}
 			y.enum[i] = val.Enum{
-				Id:    nextId,
+				Id:    item.val,
 				Label: item.ident,
 			}
-			nextId++
+			if i == 0 || item.val >= nextId {
+				nextId = item.val + 1
+			}
 		}
 	}
 
